@@ -2,6 +2,7 @@
 mod build;
 mod engine;
 mod gens;
+mod guard;
 mod refsem;
 mod spec;
 
